@@ -3342,6 +3342,11 @@ void Analyser::analyseModel(const ModelPtr &model)
 
     pFunc()->removeAllIssues();
 
+    // Every analysis reports in an analyser model of its own, so that the one
+    // given out for an earlier analysis is left alone.
+
+    pFunc()->mModel = AnalyserModel::AnalyserModelImpl::create(model);
+
     if (model == nullptr) {
         auto issue = Issue::IssueImpl::create();
 
